@@ -17,11 +17,12 @@ EXPLANATION = (
     "are write_frame calls in that loop plus the EOF marker before Ok; (R4) error surfacing: covered by C14.R4 and "
     "re-checked here for the reader thread (read/parse errors travel through the ticket or the join payload); (R5) the "
     "MT and ST writers share MAX_BUF_SIZE chunking, deflate::encode, write_frame and BGZF_EOF."
-    " (R6) the MT writer's public calls are total: no explicit panic in any of its functions — the Done state, which send() enters by itself when the writer thread has failed, is an error exit (genuine defect F9, repaired; the MT reader's identical construct is the matcher's positive control, its Done state is only entered by the caller's own finish()).")
+    " (R6) the MT writer's public calls are total: no explicit panic in any of its functions — the Done state, which send() enters by itself when the writer thread has failed, is an error exit (genuine defect F9, repaired; the MT reader's identical construct is the matcher's positive control, its Done state is only entered by the caller's own finish())."
+    " (R7) one necessary condition of 'seek and finish always terminate' is structural: the MT reader's ticket queue and recycle queue are bounded by the same value n as the priming loop 0..n (or n + k), so the reader thread can never block in send() while pause()/finish() join it.")
 ASSUMPTIONS = ["crossbeam channels are FIFO and Receiver::recv blocks until a value or disconnect",
                "rayon::spawn runs the closure exactly once",
                "std::thread::JoinHandle::join returns the closure's value"]
-NOT_DECIDED = ["termination / deadlock freedom of finish() under every schedule and channel capacity",
+NOT_DECIDED = ["termination / deadlock freedom of finish() under every schedule in general (only the queue-capacity condition R7 and the writer's Done state R6 are decided)",
                "byte equality as such (follows from R1-R3 + FIFO; values are not compared)"]
 
 MW = "noodles_bgzf::io::multithreaded_writer::"
@@ -223,6 +224,41 @@ def run(ctx):
                       "writer to Done by itself, and the caller's finish()/flush()/write() panics instead of returning an error" % (
                           f.root, x["what"]), f.loc(x["block"]))
 
+    # ---------------------------------------------------------------- R7 no blocking send on the ordered queue
+    ctx.rule("C03.R7", "A8/A4 MT reader: the ordered block queue holds as many tickets as there are buffers in circulation, so the reader "
+                       "thread never blocks in send() while pause()/finish() join it (necessary for 'seek and finish always terminate')")
+    fres = ctx.anchor("C03.R7", "noodles_bgzf::io::multithreaded_reader::MultithreadedReader::<R>::resume")
+    if fres is not None:
+        ranges = [st for blk in fres.blocks if not blk.get("cu") for st in blk["s"]
+                  if st[0] == "=" and st[2][0] == "agg" and st[2][2].endswith("range::Range") and C.eval_const(fres, st[2][4][0]) == 0]
+        bounded = R.find_calls(fres, r"crossbeam_channel::channel::bounded$")
+        if len(ranges) != 1 or len(bounded) != 2:
+            ctx.violation("C03.R7", "C03.R7/ANCHOR-MISSING/%s/shape" % fres.key,
+                          "expected one priming loop `0..n` and two bounded() channels in resume(), found %d and %d" % (len(ranges), len(bounded)), fres.loc())
+        else:
+            nbuf = _root_local(fres, ranges[0][2][4][1])
+            for b, c in bounded:
+                what = "ticket queue" if "Receiver<" in (c.get("ga") or "") else "recycle queue"
+                cap = c["args"][0]
+                root = _root_local(fres, cap)
+                ok = root is not None and root == nbuf
+                if not ok:
+                    # capacity = n + k with a constant k >= 0 is fine as well
+                    d = C.single_def(fres, root) if root is not None else None
+                    # `n + k` is lowered to `t = AddWithOverflow(n, k); assert; cap = move t.0`
+                    if d is not None and d[0] == "=" and d[3][0] == "use" and d[3][1][0] in ("c", "m") and len(d[3][1][1][1]) == 1:
+                        d = C.single_def(fres, d[3][1][1][0])
+                    if d is not None and d[0] == "=" and d[3][0] == "bin" and d[3][1].startswith("Add"):
+                        k = C.eval_const(fres, d[3][3])
+                        ok = _root_local(fres, d[3][2]) == nbuf and k is not None and k >= 0
+                if ok:
+                    ctx.ok("C03.R7", "%s capacity >= number of buffers primed into the recycle queue" % what, "same value `n` as the priming loop 0..n", fres.loc(b))
+                else:
+                    ctx.violation("C03.R7", "C03.R7/queue-capacity/%s/%s" % (fres.key, what.replace(" ", "-")),
+                                  "the %s of the MT reader is bounded by a value other than the number of buffers in circulation: with fewer slots "
+                                  "than buffers the reader thread blocks in send() and pause()/finish(), which join it without draining the "
+                                  "queue, never return (every seek, get_mut, finish and drop)" % what, fres.loc(b))
+
 
 def _spawned_closure(ctx, rule, parent_key):
     """The closure handed to rayon::spawn inside parent_key (found from the call's argument, not by index)."""
@@ -246,3 +282,22 @@ def _spawned_closure(ctx, rule, parent_key):
     g = ctx.fb.fn(found[0])
     ctx.saw_fn(g)
     return g
+
+
+def _root_local(f, op, depth=0):
+    """Follows copies / moves / tuple-field-0 of checked arithmetic back to the local that holds the value."""
+    l = C.op_local(op)
+    while l is not None and depth < 12:
+        depth += 1
+        d = C.single_def(f, l)
+        if d is None or d[0] != "=":
+            return l
+        rv = d[3]
+        if rv[0] == "use" and rv[1][0] in ("c", "m"):
+            pl = rv[1][1]
+            if not pl[1]:
+                l = pl[0]
+                continue
+            return l
+        return l
+    return l
